@@ -40,7 +40,10 @@ MISC = {
     "__init__.py": "from .inner.impl import RootrxWidget\n",
     # a declaration written into a package file uses a class of a module of that package
     "inner/__init__.py": "from clomisc.model_utils import PrefixsibHelper\n\n\ndef pkgfile_use(p: PrefixsibHelper) -> PrefixsibHelper:\n    ...\n",
-    "inner/impl.py": "from clomisc.inner.other import RootrxPart\n\n\nclass RootrxWidget:\n    def m(self, p: RootrxPart) -> RootrxPart:\n        ...\n",
+    "inner/impl.py": ("from clomisc.inner.other import RootrxPart\nfrom clomisc.zzlast import RootrxLast\n\n\nclass RootrxWidget:\n    def m(self, p: RootrxPart) -> RootrxPart:\n        ...\n\n"
+                      "    def uses_last(self, x: RootrxLast) -> RootrxLast:\n        ...\n"),
+    # ... and a class of the module that is analysed and rendered last
+    "zzlast.py": "class RootrxLast:\n    pass\n",
     "inner/other.py": "class RootrxPart:\n    pass\n",
     # a module whose name is a prefix of the module it uses
     "model.py": "from clomisc.model_utils import PrefixsibHelper\n\n\ndef prefixsib_use(h: PrefixsibHelper) -> PrefixsibHelper:\n    ...\n",
